@@ -143,7 +143,7 @@ Definition expected_flow : list (string * string * string * pyexp) := [
   ("path_padding", "assign", "scalar_input",
      (PCmp "==" (PAttr (PName "inpath") "ndim") (PInt 1)));
   ("path_padding", "assign", "ppath",
-     (PAttr (PName "target_object") "_position"));
+     (PCall (PAttr (PAttr (PName "target_object") "_position") "copy") [] []));
   ("path_padding", "assign", "opath",
      (PCall (PAttr (PAttr (PName "target_object") "_orientation") "as_quat") [] []));
   ("path_padding", "assign", "lenip",
